@@ -36,4 +36,13 @@ def stepJ (j : Json) : Except String Json := do
   pure <| Json.mkObj [("y", cqJ out), ("stab", jRats (stabPoly tab)), ("order_defect", jRat (orderDefect tab)),
     ("rowsum_defect", jRat (rowSumDefect tab)), ("errsum_defect", jRat (errSumDefect tab))]
 
+/-- {small: [bool…] (beyond the list: false), kd, N} -> vectors built and the step decision -/
+def krylovDecisionJ (j : Json) : Except String Json := do
+  let sm ← (← getArr j "small").toList.mapM fun x => x.getBool?
+  let kd ← getNat j "kd"
+  let N ← getNat j "N"
+  let small := fun (i : Nat) => sm.getD i false
+  pure <| Json.mkObj [("count", (lanczosCount small kd : Nat)), ("unbounded", Json.bool (stepUnbounded small kd N)),
+    ("unbounded_old_rule", Json.bool (stepUnboundedOld small kd N))]
+
 end Qv.Drv.C10
